@@ -223,6 +223,8 @@ impl Default for GenCfg {
 }
 
 pub const KEYS: [&str; 6] = ["a", "b", "c", "k", "a-b", "0"];
+/// property names that need quoting / escaping wherever beff prints them (JS object literals, schemas, describe())
+pub const ODD_KEYS: [&str; 4] = ["q\"t", "b\\s", "x y", "\u{e9}"];
 pub const STR_LITS: [&str; 5] = ["a", "b", "c", "a-b", ""];
 pub const NUM_LITS: [&str; 5] = ["0", "1", "2", "-1", "1.5"];
 /// literal chunks of template literal types: plain text first, then every regular-expression metacharacter
@@ -443,7 +445,7 @@ impl<'c> G<'c> {
             let vt = self.ty(s, depth - 1, n == 0);
             let mut props: Vec<Prop> = vec![];
             for _ in 0..n {
-                let key = s.pick(&KEYS).to_string();
+                let key = if s.chance(1, 14) { s.pick(&ODD_KEYS).to_string() } else { s.pick(&KEYS).to_string() };
                 if props.iter().any(|p| p.key == key) {
                     continue;
                 }
@@ -454,7 +456,7 @@ impl<'c> G<'c> {
         let n = s.range(0, 4);
         let mut props: Vec<Prop> = vec![];
         for _ in 0..n {
-            let key = s.pick(&KEYS).to_string();
+            let key = if s.chance(1, 14) { s.pick(&ODD_KEYS).to_string() } else { s.pick(&KEYS).to_string() };
             if props.iter().any(|p| p.key == key) {
                 continue;
             }
@@ -569,7 +571,7 @@ impl<'c> G<'c> {
             // string, so the object type is well-formed): the discriminated fast path must not lose it
             let indexed = self.cfg.index && s.chance(1, 7);
             for _ in 0..extra {
-                let key = s.pick(&KEYS).to_string();
+                let key = if s.chance(1, 14) { s.pick(&ODD_KEYS).to_string() } else { s.pick(&KEYS).to_string() };
                 if key == tag || props.iter().any(|p| p.key == key) {
                     continue;
                 }
@@ -640,6 +642,17 @@ pub fn gen_env_and_roots(s: &mut Src, cfg: &GenCfg, n_roots: usize) -> (Env, Vec
     for _ in 0..n_roots {
         let depth = s.range(0, cfg.max_depth);
         roots.push(g.ty(s, depth, false));
+    }
+    // now and then the same two named object types meet both in a union and in an intersection within one program
+    // (shared sub-validators are hoisted by structure: A | B and A & B must not be confused)
+    let objs = object_defs(&env);
+    if cfg.inter && objs.len() >= 2 && !roots.is_empty() && s.chance(1, 6) {
+        let i = objs[s.below(objs.len())];
+        let j = objs[(objs.iter().position(|x| *x == i).unwrap() + 1 + s.below(objs.len() - 1)) % objs.len()];
+        let last = roots.pop().unwrap();
+        let u = D::Union(vec![D::Ref(i), D::Ref(j)]);
+        let n = D::Inter(vec![D::Ref(i), D::Ref(j)]);
+        roots.push(if s.chance(1, 2) { D::Tuple(vec![last, u, n], None) } else { D::Tuple(vec![n, last, u], None) });
     }
     (env, roots)
 }
@@ -770,7 +783,7 @@ fn edit_type_here(d: &D, s: &mut Src, cfg: &GenCfg, env_size: usize) -> D {
                 D::Object { props: p2, index: index.clone() }
             }
             2 => {
-                let key = s.pick(&KEYS).to_string();
+                let key = if s.chance(1, 14) { s.pick(&ODD_KEYS).to_string() } else { s.pick(&KEYS).to_string() };
                 let mut p2 = props.clone();
                 if !p2.iter().any(|p| p.key == key) {
                     let optional = s.chance(1, 2);
